@@ -7,5 +7,6 @@ CONSTANTS
  Adjust = {0}
  Freqs = {0}
  Reorder = FALSE
+ Signed = TRUE
  KeepObs = TRUE
 CHECK_DEADLOCK FALSE
